@@ -157,6 +157,9 @@ func (r *CheckRun) propFuncs() ([]string, error) {
 		for _, cs := range c.LoopInv {
 			all = append(all, cs...)
 		}
+		for _, eo := range c.ErrorOnly {
+			all = append(all, eo.Clause)
+		}
 		for _, cl := range all {
 			for _, l := range cl.Labels {
 				if l == r.Prop || strings.HasPrefix(l, r.Prop+".") {
